@@ -740,3 +740,466 @@ Proof.
   match goal with |- x_outs (fst (send_message ?e ?h ?pt ?tr ?mm ?X)) = _ =>
     rewrite (C02_dest_udp e h pt tr mm X ip Htr Hip Hres Hslot Hfit) end. reflexivity.
 Qed.
+
+(* ====================================================================== Part 7: the TCP slot condition is an invariant *)
+(* with findClientTransport repaired, no state the proxy reaches has a UDP client under a tcp
+   key: C02_dest_tcp applies to every reachable state *)
+Lemma in_adel {V} k k' (f : V) t : In (k, f) (adel k' t) -> In (k, f) t.
+Proof.
+  induction t as [|[k0 v0] r IH]; cbn; [auto|].
+  destruct (beq k' k0); cbn; intros H; [right; apply IH; exact H|].
+  destruct H as [H|H]; [left; exact H|right; apply IH; exact H].
+Qed.
+Definition pri_not_udp (o : option primary) : Prop :=
+  forall ip port, o <> Some (PUdp ip port) /\ o <> Some (PUdpVia ip port).
+Definition tso_table (t : list (bytes * failover)) : Prop :=
+  forall k f, In (k, f) t -> has_prefix (s2b "tcp://") k = true -> pri_not_udp (fo_pri f).
+Lemma tso_iff p : tcp_slot_ok p <-> tso_table (ps_table p).
+Proof. split; intros H; exact H. Qed.
+Lemma tso_aset t k v : tso_table t -> (has_prefix (s2b "tcp://") k = true -> pri_not_udp (fo_pri v)) -> tso_table (aset k v t).
+Proof.
+  intros Ht Hv k0 f0 HI HP. apply aset_in in HI. destruct HI as [[-> ->]|HI]; [apply Hv; exact HP|exact (Ht _ _ HI HP)].
+Qed.
+Lemma pnu_none : pri_not_udp None. Proof. intros ip port. split; discriminate. Qed.
+Lemma pnu_conn c ex : pri_not_udp (Some (PConn c ex)). Proof. intros ip port. split; discriminate. Qed.
+
+Lemma tso_clean now p : tcp_slot_ok p -> tcp_slot_ok (clean_expired now p).
+Proof.
+  unfold clean_expired. destruct (Z.ltb _ 60); [auto|]. intros H k f HI. cbn [ps_table] in HI.
+  apply filter_In in HI. apply H, HI.
+Qed.
+Lemma udp_key_not_tcp host port tid : has_prefix (s2b "tcp://") (full_addr (s2b "udp") host port tid) = false.
+Proof. reflexivity. Qed.
+Lemma get_transport_key now proto host port tid p p1 key :
+  get_transport now proto host port tid p = (p1, Ok key) -> key = full_addr (to_lower proto) host port tid.
+Proof.
+  unfold get_transport. cbv zeta. destruct (negb _); [discriminate|].
+  destruct (alookup _ _); [intros H; injection H as _ <-; reflexivity|].
+  destruct (beq _ (s2b "udp")); [destruct (resolvable host port); [intros H; injection H as _ <-; reflexivity|discriminate]|].
+  destruct (alookup _ _); intros H; injection H as _ <-; reflexivity.
+Qed.
+Lemma tso_get_transport now proto host port tid p :
+  tcp_slot_ok p -> tcp_slot_ok (fst (get_transport now proto host port tid p)).
+Proof.
+  intros H. pose proof (tso_clean now p H) as HC. unfold get_transport. cbv zeta.
+  destruct (negb _); [exact HC|]. destruct (alookup _ _); [exact HC|].
+  destruct (beq (to_lower proto) (s2b "udp")) eqn:EB.
+  - destruct (resolvable host port); [|exact HC]. cbn [fst]. apply tso_iff. cbn [ps_table with_table].
+    apply tso_aset; [exact HC|]. apply beq_eq in EB. rewrite EB. intros HP.
+    rewrite udp_key_not_tcp in HP. discriminate.
+  - destruct (alookup _ _) as [f|]; cbn [fst]; apply tso_iff; cbn [ps_table with_table with_clients].
+    + apply tso_aset; [exact HC|]. intros _. apply pnu_none.
+    + apply tso_aset; [apply tso_aset; [exact HC|]|]; intros _; apply pnu_none.
+Qed.
+Lemma tso_set_primary key pr p :
+  tcp_slot_ok p -> (has_prefix (s2b "tcp://") key = true -> pri_not_udp (Some pr)) -> tcp_slot_ok (set_primary key pr p).
+Proof.
+  intros H Hp. unfold set_primary. destruct (alookup key (ps_table p)); [|exact H].
+  apply tso_iff. cbn [ps_table with_table]. apply tso_aset; [exact H|exact Hp].
+Qed.
+Lemma tso_remove_transport proto host port tid p : tcp_slot_ok p -> tcp_slot_ok (remove_transport proto host port tid p).
+Proof.
+  intros H. unfold remove_transport. cbv zeta. destruct (negb _); [exact H|].
+  intros k f HI. cbn [ps_table with_table] in HI. apply in_adel in HI. apply H. exact HI.
+Qed.
+Lemma tcs_table n : forall li local rs id b p cs w outs p' cs' w' outs' ok,
+  tcp_client_send n li local rs id b p cs w outs = (p', cs', w', outs', ok) -> ps_table p' = ps_table p.
+Proof.
+  induction n as [|n IH]; intros li local rs id b p cs w outs p' cs' w' outs' ok; cbn [tcp_client_send].
+  - intros H. injection H as <- _ _ _ _. reflexivity.
+  - destruct (find_client id (ps_clients p)) as [cl|]; [|intros H; injection H as <- _ _ _ _; reflexivity].
+    destruct (tc_cached cl) as [c|].
+    + destruct (conn_open cs c); [intros H; injection H as <- _ _ _ _; reflexivity|].
+      intros H. apply IH in H. exact H.
+    + destruct (existsb _ (w_tcp_listeners w)); [|intros H; injection H as <- _ _ _ _; reflexivity].
+      intros H. apply IH in H. exact H.
+Qed.
+Lemma fos_table li local rs f b p cs w p' cs' w' outs ok f' :
+  failover_send li local rs f b p cs w = (p', cs', w', outs, ok, f') ->
+  ps_table p' = ps_table p /\ (fo_pri f' = fo_pri f \/ fo_pri f' = None).
+Proof.
+  unfold failover_send.
+  assert (SEC : forall f1 outs0 p' cs' w' outs ok f',
+            match fo_sec f1 with
+            | Some id => let '(p2, cs2, w2, outs2, ok) := tcp_client_send 2 li local rs id b p cs w outs0 in
+                         (p2, cs2, w2, outs2, ok, f1)
+            | None => (p, cs, w, outs0, false, f1)
+            end = (p', cs', w', outs, ok, f') -> ps_table p' = ps_table p /\ f' = f1).
+  { intros f1 outs0 p2 cs2 w2 outs2 ok2 f2. destruct (fo_sec f1) as [id|].
+    - destruct (tcp_client_send 2 li local rs id b p cs w outs0) as [[[[p3 cs3] w3] outs3] ok3] eqn:E.
+      intros H. injection H as <- _ _ _ _ <-. split; [exact (tcs_table _ _ _ _ _ _ _ _ _ _ _ _ _ _ _ E)|reflexivity].
+    - intros H. injection H as <- _ _ _ _ <-. split; reflexivity. }
+  destruct (fo_pri f) as [[ip port|ip port|c ex]|] eqn:EP.
+  - destruct (fits_datagram b).
+    + intros H. injection H as <- _ _ _ _ <-. split; [reflexivity|left; exact EP].
+    + intros H. apply SEC in H. destruct H as [H1 ->]. split; [exact H1|right; reflexivity].
+  - destruct (fits_datagram b).
+    + intros H. injection H as <- _ _ _ _ <-. split; [reflexivity|left; exact EP].
+    + intros H. apply SEC in H. destruct H as [H1 ->]. split; [exact H1|right; reflexivity].
+  - destruct (conn_open cs c).
+    + intros H. injection H as <- _ _ _ _ <-. split; [reflexivity|left; exact EP].
+    + intros H. apply SEC in H. destruct H as [H1 ->]. split; [exact H1|right; reflexivity].
+  - intros H. apply SEC in H. destruct H as [H1 ->]. split; [exact H1|left; exact EP].
+Qed.
+
+Lemma tso_send_message e host port tr m x :
+  fx_udp_via_listener (e_fx e) = true -> tcp_slot_ok (x_p x) ->
+  tcp_slot_ok (x_p (fst (send_message e host port tr m x))).
+Proof.
+  intros Hfx H0. unfold send_message. destruct (mtry s_client_transaction m) as [m1 tid].
+  match goal with |- context [get_transport ?a ?b ?c ?d ?e0 ?f] =>
+    pose proof (tso_get_transport a b c d e0 f H0) as H1;
+    destruct (get_transport a b c d e0 f) as [p1 rkey] eqn:EG end.
+  cbn [fst] in H1. destruct rkey as [key| |]; try exact H1.
+  pose proof (get_transport_key _ _ _ _ _ _ _ _ EG) as EK.
+  set (P2 := match alookup key (ps_table p1) with Some {| fo_pri := None |} => _ | _ => p1 end).
+  assert (H2 : tcp_slot_ok P2).
+  { subst P2. destruct (alookup key (ps_table p1)) as [[[pr|] sec]|]; try exact H1.
+    rewrite Hfx. cbn [andb]. destruct (equal_fold tr (s2b "udp")) eqn:EU; cbn [negb]; [|exact H1].
+    match goal with |- context [alookup ?ip (x_learned x)] => destruct (alookup ip (x_learned x)) as [[[| |] a pt]|] end; try exact H1.
+    destruct (resolvable _ port); [|exact H1].
+    apply tso_set_primary; [exact H1|]. intros HP. exfalso.
+    unfold equal_fold in EU. apply beq_eq in EU. change (to_lower (s2b "udp")) with (s2b "udp") in EU.
+    rewrite EK, EU, udp_key_not_tcp in HP. discriminate. }
+  clearbody P2. destruct (alookup key (ps_table P2)) as [f|] eqn:EF; [|exact H2].
+  set (P3 := if is_final_response m1 then _ else P2).
+  assert (H3 : tcp_slot_ok P3) by (subst P3; destruct (is_final_response m1); [apply tso_remove_transport|]; exact H2).
+  clearbody P3.
+  match goal with |- context [failover_send ?a ?b ?c ?d ?e0 ?f0 ?g ?h] =>
+    destruct (failover_send a b c d e0 f0 g h) as [[[[[p4 cs] w] outs] ok] f'] eqn:EFS end.
+  destruct (fos_table _ _ _ _ _ _ _ _ _ _ _ _ _ _ EFS) as [T4 PF].
+  assert (H4 : tcp_slot_ok p4) by (apply tso_iff; rewrite T4; exact H3).
+  destruct (alookup key (ps_table p4)); cbn [fst x_p]; [|exact H4].
+  apply tso_iff. cbn [ps_table with_table]. apply tso_aset; [exact H4|]. intros HP.
+  destruct PF as [-> | ->]; [|apply pnu_none]. apply alookup_in in EF. exact (H2 _ _ EF HP).
+Qed.
+
+Lemma find_backend_by_dialog_pins e p : mpost (find_backend_by_dialog e p) (fun r => pinsonly p (fst r)).
+Proof.
+  unfold find_backend_by_dialog.
+  apply mpost_mbind with (P := fun _ => True); [apply mpost_true|intros meth _].
+  destruct (_ && _)%bool; [apply mpost_mret, pinsonly_refl|].
+  apply mpost_mbind with (P := fun _ => True); [apply mpost_true|intros [d|] _]; [|apply mpost_mret, pinsonly_refl].
+  destruct (pins_get (e_now e) d (ps_pins p)) as [pins1 ob].
+  apply mpost_mbind with (P := fun _ => True); [apply mpost_true|intros ss _].
+  apply mpost_mret. cbn [fst]. destruct (_ && _)%bool; [apply pinsonly_with|]; apply pinsonly_with, pinsonly_refl.
+Qed.
+Lemma send_to_backend_table e m x : ps_table (x_p (fst (send_to_backend e m x))) = ps_table (x_p x).
+Proof.
+  unfold send_to_backend. destruct (negb _); [reflexivity|]. destruct (first_transport (e_lc e)) as [t0|]; [|reflexivity].
+  pose proof (find_backend_by_dialog_pins e (x_p x) m) as PD.
+  destruct (find_backend_by_dialog e (x_p x) m) as [m1 r]. cbn [snd] in PD.
+  assert (P1 : ps_table (fst (match r with Ok v => v | _ => (x_p x, None) end)) = ps_table (x_p x)).
+  { destruct r as [[p1 ob]| |]; try reflexivity. destruct (PD _ eq_refl) as (pp & E). cbn [fst] in E |- *. rewrite E. reflexivity. }
+  destruct (match r with Ok v => v | _ => (x_p x, None) end) as [p1 ob]. cbn [fst] in P1.
+  match goal with |- context [backend_send ?b ?bs p1] => destruct (backend_send b bs p1) as [[p2 outs] ok] eqn:EB end.
+  assert (P2 : ps_table p2 = ps_table p1).
+  { unfold backend_send in EB. destruct (match ob with Some b => b | None => BRR end) as [a g|].
+    - destruct (_ && _)%bool; injection EB as <- _ _; reflexivity.
+    - destruct (rr_dispatch (ps_rr p1)) as [r' o]. destruct o as [a|]; [destruct (fits_datagram _)|]; injection EB as <- _ _; reflexivity. }
+  destruct ok.
+  - match goal with |- context [mtry s_client_transaction ?mm] => destruct (mtry s_client_transaction mm) as [m3 tid] end.
+    cbn [fst x_p]. destruct tid as [[t|]| |]; cbn [ps_table with_pins]; congruence.
+  - cbn [fst x_p]. congruence.
+Qed.
+
+Ltac tso_send :=
+  match goal with |- tcp_slot_ok (x_p (fst (send_message ?e ?h ?p ?t ?m ?X))) =>
+    apply (tso_send_message e h p t m X); [assumption|assumption] end.
+Lemma tso_handle_message e from m x :
+  fx_udp_via_listener (e_fx e) = true -> tcp_slot_ok (x_p x) -> tcp_slot_ok (x_p (fst (handle_message e from m x))).
+Proof.
+  intros Hfx H0. unfold handle_message. destruct (is_request m).
+  - destruct (next_request_hop _ _ m) as [m1 r].
+    assert (BK : tcp_slot_ok (x_p (fst (if is_my_message (new_my_name (c_name (e_cfg e))) from m1
+                                        then send_to_backend e m1 x else (x, m1))))).
+    { destruct (is_my_message _ from m1); [|exact H0]. apply tso_iff. rewrite send_to_backend_table. exact H0. }
+    destruct r as [[[host port] tr]| |]; try exact BK. tso_send.
+  - destruct (mtry s_pop_via m) as [m1 r1]. destruct (mtry next_response_hop m1) as [m2 hop].
+    destruct (mtry s_get_method m2) as [m3 ometh].
+    assert (HP : forall a, tcp_slot_ok (with_pins (x_p x) a)) by (intros a; exact H0).
+    destruct hop as [[[[h p] t]|]| |]; try exact H0.
+    destruct ometh as [[meth|]| |]; try (cbn [x_p]; tso_send).
+    destruct (beq meth (s2b "SUBSCRIBE")); [|cbn [x_p]; tso_send].
+    destruct (alookup _ (ps_backends (x_p x))); [|cbn [x_p]; tso_send].
+    destruct (mtry s_get_dialog m3) as [m' od]. destruct od as [[d|]| |]; try (cbn [x_p]; tso_send).
+Qed.
+Lemma tso_process_message e peer port from rs tcp m0 x x' :
+  fx_udp_via_listener (e_fx e) = true -> tcp_slot_ok (x_p x) ->
+  process_message e peer port from rs tcp m0 x = Ok x' -> tcp_slot_ok (x_p x').
+Proof.
+  intros Hfx H0. unfold process_message.
+  destruct (if (is_request m0 && _)%bool then _ else _) as [m1 l1].
+  set (TP := match tcp with Some c => _ | None => _ end).
+  assert (HT : forall p1, snd TP = Ok p1 -> tcp_slot_ok p1).
+  { subst TP. destruct tcp as [c|]; [|cbn; intros p1 E; injection E as <-; exact H0].
+    destruct (is_request _); [|cbn; intros p1 E; injection E as <-; exact H0].
+    destruct (mtry next_response_hop _) as [m' hop].
+    destruct hop as [oh| |]; try (cbn; intros p1 E; injection E as <-; exact H0).
+    destruct (if has_prefix _ _ then _ else _) as [host| |]; try (cbn; discriminate).
+    destruct oh as [hh|]; [|cbn; intros p1 E; injection E as <-; exact H0].
+    destruct (mtry s_client_transaction m') as [m'' tid].
+    destruct tid as [[t|]| |]; try (cbn; intros p1 E; injection E as <-; exact H0).
+    match goal with |- context [get_transport ?a ?b ?c0 ?d ?e0 ?f] =>
+      pose proof (tso_get_transport a b c0 d e0 f H0) as H1; destruct (get_transport a b c0 d e0 f) as [p1 rk] end.
+    cbn [fst] in H1. destruct rk; cbn; intros p2 E; injection E as <-; try exact H1.
+    apply tso_set_primary; [exact H1|]. intros _. apply pnu_conn. }
+  clearbody TP. destruct TP as [m3 rp]. cbn [snd] in HT.
+  destruct rp as [p1| |]; try discriminate. specialize (HT p1 eq_refl). cbv zeta.
+  set (DP := if is_response _ then _ else _).
+  assert (HD : tcp_slot_ok (snd DP)).
+  { subst DP. destruct (is_response _); [|exact HT].
+    pose proof (handle_dialog_pins e peer port p1 (fst (mtry (try_remove_top_route (e_cfg e) from) m3))) as PD.
+    destruct (handle_dialog _ _ _ _ _) as [m' r]. cbn [snd] in PD |- *.
+    destruct r as [p'| |]; try exact HT. destruct (PD p' eq_refl) as (pp & ->). exact HT. }
+  clearbody DP. destruct DP as [m5 p2]. cbn [snd] in HD. intros H. injection H as <-.
+  apply tso_handle_message; [exact Hfx|exact HD].
+Qed.
+Lemma tso_tcp_messages f : forall e c s x x',
+  fx_udp_via_listener (e_fx e) = true -> tcp_slot_ok (x_p x) -> tcp_messages f e c s x = Ok x' -> tcp_slot_ok (x_p x').
+Proof.
+  induction f as [|f IH]; intros e c s x x' Hfx H0; cbn [tcp_messages].
+  - intros H. injection H as <-. exact H0.
+  - destruct (trim_left s); [intros H; injection H as <-; exact H0|].
+    destruct (parse_message s) as [[m rest]| |]; try (intros H; injection H as <-; exact H0).
+    destruct (process_message e _ _ _ _ _ m x) as [x1| |] eqn:EP; try discriminate.
+    intros H. exact (IH _ _ _ _ _ Hfx (tso_process_message _ _ _ _ _ _ _ _ _ Hfx H0 EP) H).
+Qed.
+
+Lemma Forall_set_nth_p (P : pstate -> Prop) l i p : Forall P l -> P p -> Forall P (set_nth_p l i p).
+Proof.
+  intros H Hp. revert i. induction H as [|a r Ha Hr IH]; intros i; [destruct i; constructor|].
+  destruct i; cbn; constructor; auto.
+Qed.
+Lemma Forall_nth_p (P : pstate -> Prop) l i p : Forall P l -> nth_p l i = Some p -> P p.
+Proof.
+  intros H. revert i. unfold nth_p. induction H as [|a r Ha Hr IH]; intros i; [destruct i; discriminate|].
+  destruct i; cbn; [intros E; injection E as <-; exact Ha|apply IH].
+Qed.
+
+Theorem C02_tcp_slot_step : forall fx c now br st ev st' outs,
+  fx_udp_via_listener fx = true -> Forall tcp_slot_ok (st_proxies st) ->
+  proxy_step fx c now br st ev = Ok (st', outs) -> Forall tcp_slot_ok (st_proxies st').
+Proof.
+  intros fx c now br st ev st' outs Hfx W H.
+  destruct ev as [li src sport data|li src sport|cid data|cid|li a|li a]; cbn [proxy_step] in H.
+  - destruct (nth_opt (c_listens c) li) as [lc|]; [|injection H as <- _; exact W].
+    destruct (parse_message data) as [[m rest]| |]; try (injection H as <- _; exact W).
+    unfold run_ctx in H. destruct (nth_p (st_proxies st) li) as [p|] eqn:EN; [|injection H as <- _; exact W].
+    destruct (process_message _ _ _ _ _ _ _ _) as [x'| |] eqn:EP; try discriminate.
+    injection H as <- _. cbn [st_proxies]. apply Forall_set_nth_p; [exact W|].
+    refine (tso_process_message _ _ _ _ _ _ _ _ _ _ _ EP); [exact Hfx|exact (Forall_nth_p _ _ _ _ W EN)].
+  - destruct (nth_opt (c_listens c) li) as [lc|]; [|injection H as <- _; exact W].
+    destruct (nth_p (st_proxies st) li) as [p|] eqn:EN; [|injection H as <- _; exact W].
+    match type of H with context [get_transport ?a ?b ?c0 ?d ?e0 ?f] =>
+      pose proof (tso_get_transport a b c0 d e0 f (Forall_nth_p _ _ _ _ W EN)) as H1;
+      destruct (get_transport a b c0 d e0 f) as [p1 rk] end.
+    cbn [fst] in H1. injection H as <- _. cbn [st_proxies]. apply Forall_set_nth_p; [exact W|].
+    destruct rk; try exact H1. apply tso_set_primary; [exact H1|]. intros _. apply pnu_conn.
+  - destruct (find _ (st_conns st)) as [cn|]; [|injection H as <- _; exact W].
+    destruct (cn_open cn); [|injection H as <- _; exact W].
+    destruct (nth_opt (c_listens c) (cn_li cn)) as [lc|]; [|injection H as <- _; exact W].
+    unfold run_ctx in H. destruct (nth_p (st_proxies st) (cn_li cn)) as [p|] eqn:EN; [|injection H as <- _; exact W].
+    destruct (tcp_messages _ _ _ _ _) as [x'| |] eqn:EP; try discriminate.
+    injection H as <- _. cbn [st_proxies]. apply Forall_set_nth_p; [exact W|].
+    refine (tso_tcp_messages _ _ _ _ _ _ _ _ EP); [exact Hfx|exact (Forall_nth_p _ _ _ _ W EN)].
+  - injection H as <- _. exact W.
+  - destruct (nth_p (st_proxies st) li) as [p|] eqn:EN; [|injection H as <- _; exact W].
+    injection H as <- _. cbn [st_proxies]. apply Forall_set_nth_p; [exact W|].
+    exact (Forall_nth_p _ _ _ _ W EN).
+  - destruct (nth_p (st_proxies st) li) as [p|] eqn:EN; [|injection H as <- _; exact W].
+    destruct (rr_remove a (ps_rr p)) as [r' closed]. injection H as <- _. cbn [st_proxies].
+    apply Forall_set_nth_p; [exact W|]. exact (Forall_nth_p _ _ _ _ W EN).
+Qed.
+
+Theorem C02_tcp_slot_reachable : forall fx c st,
+  fx_udp_via_listener fx = true -> reachable fx c st -> Forall tcp_slot_ok (st_proxies st).
+Proof.
+  intros fx c st Hfx R. induction R as [now tl|st now br ev st' outs R IH H].
+  - cbn [init_state st_proxies]. apply Forall_forall. intros p HI. apply in_map_iff in HI.
+    destruct HI as (lc & <- & _). intros k f [].
+  - exact (C02_tcp_slot_step _ _ _ _ _ _ _ _ Hfx IH H).
+Qed.
+
+(* end to end: in every reachable state of the repaired tree, a response whose next Via entry
+   names TCP never leaves as a datagram: at most one dial and one write on a connection *)
+Corollary C02_step_udp_relay_tcp : forall c now br st li src sport data lc p m rest st' outs v2,
+  reachable all_fixed c st ->
+  nth_opt (c_listens c) li = Some lc -> nth_p (st_proxies st) li = Some p ->
+  parse_message data = Ok (m, rest) -> is_response m = true ->
+  proxy_step all_fixed c now br st (EvUdp li src sport data) = Ok (st', outs) ->
+  top_view (pop_view (via_hdrs m)) = Some v2 -> to_lower (v_transport v2) = s2b "tcp" ->
+  exists m', via_hdrs m' = pop_view (via_hdrs m) /\ m_start m' = m_start m /\ m_body m' = m_body m /\
+             tcp_shape (write_message m') outs.
+Proof.
+  intros c now br st li src sport data lc p m rest st' outs v2 R EL EP EM Hr H HT Htr.
+  pose proof (C02_step_udp _ _ _ _ _ _ _ _ _ _ _ _ _ _ _ EL EP EM Hr H) as G. rewrite HT in G.
+  destruct G as (m4 & pins' & -> & G2 & G3 & G4). exists (sent_msg m4).
+  destruct (veq_sent_msg m4) as (V1 & V2 & V3). repeat split; try congruence.
+  pose proof (Forall_nth_p _ _ _ _ (C02_tcp_slot_reachable all_fixed c st eq_refl R) EP) as HS.
+  match goal with |- tcp_shape _ (x_outs (fst (send_message ?e ?h ?pt ?tr ?mm ?X))) =>
+    destruct (C02_dest_tcp e h pt tr mm X eq_refl Htr HS) as (os & H1 & H2) end.
+  rewrite H1. exact H2.
+Qed.
+
+(* TCP chunk carrying responses: per message, in order *)
+Theorem C02_step_tcp : forall fx c now br st cid data cn lc st' outs,
+  find (fun x => Nat.eqb (cn_id x) cid) (st_conns st) = Some cn ->
+  nth_opt (c_listens c) (cn_li cn) = Some lc ->
+  proxy_step fx c now br st (EvTcpData cid data) = Ok (st', outs) ->
+  exists oss, outs = List.concat oss /\
+    Forall2 (fun m os => is_response m = true ->
+               match top_view (pop_view (via_hdrs m)) with
+               | Some v2 => exists m', via_hdrs m' = pop_view (via_hdrs m) /\ Forall (out_is m') os
+               | None => os = []
+               end)
+            (firstn (List.length oss) (parse_stream (S (List.length data)) data)) oss.
+Proof.
+  intros fx c now br st cid data cn lc st' outs EF EL H.
+  cbn [proxy_step] in H. rewrite EF in H.
+  destruct (cn_open cn); [|injection H as <- <-; exists []; split; [reflexivity|constructor]].
+  rewrite EL in H. unfold run_ctx in H.
+  destruct (nth_p (st_proxies st) (cn_li cn)) as [p|]; [|injection H as <- <-; exists []; split; [reflexivity|constructor]].
+  destruct (tcp_messages _ _ _ _ _) as [x'| |] eqn:E; try discriminate.
+  injection H as <- <-.
+  refine (tcp_messages_outs _ _ _ _ _ _ _ _ E).
+  intros m x x1 EP. destruct (is_response m) eqn:Hr.
+  - pose proof (C02_process_response _ _ _ _ _ _ _ _ _ Hr EP) as G.
+    destruct (top_view (pop_view (via_hdrs m))) as [v2|].
+    + destruct G as (m4 & pins' & -> & _ & _ & G4).
+      match goal with |- context [send_message ?e ?h ?pt ?tr ?mm ?X] =>
+        destruct (send_message_out_is e h pt tr mm X) as (os & H1 & H2) end.
+      exists os. split; [exact H1|]. intros _. exists (sent_msg m4). split; [|exact H2].
+      destruct (veq_sent_msg m4) as (_ & _ & ->). exact G4.
+    + destruct G as (G & _). exists []. split; [rewrite app_nil_r; exact G|]. intros _. reflexivity.
+  - destruct (process_message_ext _ _ _ _ _ _ _ _ _ EP) as (os & Ho). exists os. split; [exact Ho|]. discriminate.
+Qed.
+
+(* ====================================================================== Examples (non-vacuity) *)
+Module C02_examples.
+Import C07_examples.
+Open Scope string_scope.
+Open Scope list_scope.
+Open Scope Z_scope.
+Definition ex_resp (vias : list string) : bytes :=
+  text (["SIP/2.0 200 OK"] ++ vias ++ ["CSeq: 1 INVITE"; "Content-Length: 0"]).
+Definition cfgh : cfg :=
+  {| c_name := s2b "proxy.example"; c_keep_next_hop := false; c_dialog_timeout := 60; c_routes := [];
+     c_hosts := [(s2b "ua.example", s2b "10.1.1.1")]; c_listens := [ex_lc false] |}.
+Definition bk := s2b "10.0.0.2".
+Definition own := "Via: SIP/2.0/UDP 127.0.0.1:5060;branch=z9hG4bKpx".
+
+(* comma list: received + numeric rport win over the sent-by; the remaining entries stay *)
+Example comma_list :
+  run all_fixed cfgh (init_state cfgh 0 [])
+    [EvUdp 0 bk 5070 (ex_resp ["Via: SIP/2.0/UDP 127.0.0.1:5060;branch=z9hG4bKpx, SIP/2.0/UDP 10.9.9.9:5070;rport=40000;branch=z9hG4bKabc;received=127.0.0.9, SIP/2.0/TCP 10.8.8.8;branch=z9hG4bKdef"])] =
+  [[(DUdp (s2b "127.0.0.9") 40000,
+     ex_resp ["Via: SIP/2.0/UDP 10.9.9.9:5070;rport=40000;branch=z9hG4bKabc;received=127.0.0.9,SIP/2.0/TCP 10.8.8.8;branch=z9hG4bKdef"])]].
+Proof. vm_compute. reflexivity. Qed.
+
+(* repeated lines, compact / odd-case names; valueless rport: the sent-by port *)
+Example repeated_lines :
+  run all_fixed cfgh (init_state cfgh 0 [])
+    [EvUdp 0 bk 5070 (ex_resp ["v: SIP/2.0/UDP 127.0.0.1:5060;branch=z9hG4bKpx";
+                               "VIA: SIP/2.0/UDP 10.9.9.9:5070;rport;branch=z9hG4bKabc;received=127.0.0.9";
+                               "Via: SIP/2.0/TCP 10.8.8.8;branch=z9hG4bKdef"])] =
+  [[(DUdp (s2b "127.0.0.9") 5070,
+     ex_resp ["VIA: SIP/2.0/UDP 10.9.9.9:5070;rport;branch=z9hG4bKabc;received=127.0.0.9";
+              "Via: SIP/2.0/TCP 10.8.8.8;branch=z9hG4bKdef"])]].
+Proof. vm_compute. reflexivity. Qed.
+
+(* no received: sent-by host through the host table, default port *)
+Example host_table_default_port :
+  run all_fixed cfgh (init_state cfgh 0 [])
+    [EvUdp 0 bk 5070 (ex_resp [own; "Via: SIP/2.0/UDP ua.example;branch=z9hG4bKabc"])] =
+  [[(DUdp (s2b "10.1.1.1") 5060, ex_resp ["Via: SIP/2.0/UDP ua.example;branch=z9hG4bKabc"])]].
+Proof. vm_compute. reflexivity. Qed.
+
+(* single Via / undecodable first / undecodable next / unsupported transport: nothing *)
+Example drops :
+  run all_fixed cfgh (init_state cfgh 0 [])
+    [EvUdp 0 bk 5070 (ex_resp [own]);
+     EvUdp 0 bk 5070 (ex_resp ["Via: garbage"; "Via: SIP/2.0/UDP 10.9.9.9:5070"]);
+     EvUdp 0 bk 5070 (ex_resp [own; "Via: SIP/2.0"]);
+     EvUdp 0 bk 5070 (ex_resp [own; "Via: SIP/2.0/TLS 10.9.9.9:5061;branch=z9hG4bKabc"])] =
+  [[]; []; []; []].
+Proof. vm_compute. reflexivity. Qed.
+
+(* TCP next hop (lower-case transport): one dial, one write on that connection, no datagram *)
+Example tcp_hop :
+  run all_fixed cfgh (init_state cfgh 0 [(s2b "10.9.9.9", 5070)])
+    [EvUdp 0 bk 5070 (ex_resp [own; "Via: SIP/2.0/tcp 10.9.9.9:5070;branch=z9hG4bKabc"])] =
+  [[(DDial (s2b "10.9.9.9") 5070 0, []);
+    (DConn 0, ex_resp ["Via: SIP/2.0/tcp 10.9.9.9:5070;branch=z9hG4bKabc"])]].
+Proof. vm_compute. reflexivity. Qed.
+
+(* before the repair of findClientTransport: 10.9.9.9 was learned through the UDP listener
+   (first event), so the response for a TCP Via entry leaves as a DATAGRAM *)
+Definition legacy_udp : fixes :=
+  {| fx_wiring := true; fx_udp_via_listener := false; fx_indialog_invite := true; fx_bracket_host := true |}.
+Definition evs_legacy : list event :=
+  [EvUdp 0 (s2b "10.9.9.9") 5070 (ex_req ["Via: SIP/2.0/TCP 10.9.9.9:5070;branch=z9hG4bKabc"] "Route: <sip:10.0.0.2:5070;lr>");
+   EvUdp 0 bk 5070 (ex_resp [own; "Via: SIP/2.0/TCP 10.9.9.9:5070;branch=z9hG4bKabc;received=10.9.9.9"])].
+Example C02_legacy_refuted :
+  nth 1 (run legacy_udp cfgh (init_state cfgh 0 [(s2b "10.9.9.9", 5070)]) evs_legacy) [] =
+    [(DUdp (s2b "10.9.9.9") 5070, ex_resp ["Via: SIP/2.0/TCP 10.9.9.9:5070;branch=z9hG4bKabc;received=10.9.9.9"])] /\
+  nth 1 (run all_fixed cfgh (init_state cfgh 0 [(s2b "10.9.9.9", 5070)]) evs_legacy) [] =
+    [(DDial (s2b "10.9.9.9") 5070 0, []);
+     (DConn 0, ex_resp ["Via: SIP/2.0/TCP 10.9.9.9:5070;branch=z9hG4bKabc;received=10.9.9.9"])].
+Proof. split; vm_compute; reflexivity. Qed.
+
+(* round trip: the request of C07_examples.own_via_on_top, then the response of the next hop *)
+Example roundtrip :
+  run all_fixed cfgh (init_state cfgh 0 [])
+    [EvUdp 0 bk 5070 (ex_req ["Via: SIP/2.0/UDP 10.0.0.2:5070;branch=z9hG4bKq"] "Route: <sip:10.0.0.4;lr>");
+     EvUdp 0 src 40000 (ex_req ["Via: SIP/2.0/UDP 10.9.9.9:5070;rport;branch=z9hG4bKabc"] rt);
+     EvUdp 0 bk 5070 (ex_resp [own; "Via: SIP/2.0/UDP 10.9.9.9:5070;rport=40000;branch=z9hG4bKabc;received=127.0.0.9"])] =
+  [[(DUdp (s2b "10.0.0.4") 5060, ex_out ["Via: SIP/2.0/UDP 10.0.0.2:5070;branch=z9hG4bKq;received=10.0.0.2"])];
+   [(DUdp bk 5070, ex_out [own; "Via: SIP/2.0/UDP 10.9.9.9:5070;rport=40000;branch=z9hG4bKabc;received=127.0.0.9"])];
+   [(DUdp src 40000, ex_resp ["Via: SIP/2.0/UDP 10.9.9.9:5070;rport=40000;branch=z9hG4bKabc;received=127.0.0.9"])]].
+Proof. vm_compute. reflexivity. Qed.
+
+(* the two layouts of the same three entries satisfy the hypotheses of C02_response_hop *)
+Definition e1 := "SIP/2.0/UDP 127.0.0.1:5060;branch=z9hG4bKpx".
+Definition e2 := "SIP/2.0/UDP 10.9.9.9:5070;rport=40000;received=127.0.0.9".
+Definition e3 := "SIP/2.0/TCP 10.8.8.8".
+Example layouts_ex :
+  exists mc ml rc rl v1 v2 v3,
+    parse_message (ex_resp [("Via: " ++ e1 ++ "," ++ e2 ++ "," ++ e3)%string]) = Ok (mc, rc) /\
+    parse_message (ex_resp [("v: " ++ e1)%string; ("VIA: " ++ e2)%string; ("Via: " ++ e3)%string]) = Ok (ml, rl) /\
+    is_response mc = true /\ is_response ml = true /\
+    via_hdrs mc = [Some [v1; v2; v3]] /\ via_hdrs ml = [Some [v1]; Some [v2]; Some [v3]] /\
+    snd (decode_all_vias (m_headers mc)) = [v1; v2; v3] /\ snd (decode_all_vias (m_headers ml)) = [v1; v2; v3] /\
+    hop_host v2 = s2b "127.0.0.9" /\ hop_port v2 = 40000 /\ v_transport v2 = s2b "UDP".
+Proof.
+  do 7 eexists. split; [vm_compute; reflexivity|]. split; [vm_compute; reflexivity|].
+  repeat (split; [vm_compute; reflexivity|]). vm_compute. reflexivity.
+Qed.
+
+(* the state conditions of C02_dest_udp / C02_dest_tcp / C02_independent_of_pins hold initially *)
+Example slots_ex : udp_slot_ok (s2b "127.0.0.9") 40000 (init_pstate cfgh 0 (ex_lc false)) /\
+                   tcp_slot_ok (init_pstate cfgh 0 (ex_lc false)) /\ udp_known (init_pstate cfgh 0 (ex_lc false)).
+Proof. split; [exact I|]. split; intros k f []. Qed.
+End C02_examples.
+
+(* ====================================================================== closed proofs *)
+Print Assumptions C02_response_general.
+Print Assumptions C02_response_hop.
+Print Assumptions C02_response_hop_outs.
+Print Assumptions C02_single_via_dropped.
+Print Assumptions C02_undecodable_dropped.
+Print Assumptions C02_dest_unsupported.
+Print Assumptions C02_dest_udp.
+Print Assumptions C02_dest_tcp.
+Print Assumptions C02_dest_tcp_no_udp.
+Print Assumptions C02_independent_of_pins.
+Print Assumptions C02_roundtrip_return.
+Print Assumptions C02_roundtrip.
+Print Assumptions C02_process_response.
+Print Assumptions C02_step_udp.
+Print Assumptions C02_step_udp_relay_udp.
+Print Assumptions C02_tcp_slot_step.
+Print Assumptions C02_tcp_slot_reachable.
+Print Assumptions C02_step_udp_relay_tcp.
+Print Assumptions C02_step_tcp.
+Print Assumptions C02_examples.C02_legacy_refuted.
